@@ -430,32 +430,6 @@ theorem sharded_eq_batched (root : Nat → Nat → A2 α → ρ) (filler : Stat 
 
 end Tree
 
-section Tree2
-open PrecondVerif.BlockDiag
-variable {α : Type} [Field α] [LinearOrder α] [IsStrictOrderedRing α]
-
-theorem ofA2_padSq_self (s : Nat) (a : A2 α) : ofA2 s (padSq s s a) = ofA2 s a := by
-  funext i j
-  unfold ofA2 padSq
-  rw [rdM_tabM, if_pos ⟨i.isLt, j.isLt⟩]
-  unfold padSqF
-  rw [if_pos ⟨i.isLt, j.isLt⟩]
-
-/-- without padding (`max_size = size`) the batch-position routine is C01's routine on the statistic itself -/
-theorem paddedRootC01_self (Nw : NewtonCfg α) (s : Nat) (a : A2 α) :
-    paddedRootC01 Nw s s a =
-      (toMx (newtonOut Nw s (ofA2 s a)).x, (newtonOut Nw s (ofA2 s a)).err, (newtonOut Nw s (ofA2 s a)).retries) := by
-  unfold paddedRootC01
-  simp only [ofA2_padSq_self]
-  refine Prod.ext ?_ rfl
-  funext i j
-  unfold toMx
-  dsimp only
-  by_cases h : i < s ∧ j < s
-  · rw [dif_pos (⟨h, h⟩ : (i < s ∧ j < s) ∧ (i < s ∧ j < s)), dif_pos h]
-  · rw [dif_neg (fun hh : (i < s ∧ j < s) ∧ (i < s ∧ j < s) => h hh.1), dif_neg h]
-
-end Tree2
 
 
 end PrecondVerif.Compose
